@@ -279,11 +279,12 @@ def check(ctx):
     if not gos:
         r3.bad(V(r3.id, "<anchor>", "missing:generate_object_schema", "anchor not found"))
     else:
-        f = gos[0]
-        cs = [c for c in f.calls if short_path(c.best) == "ZodSchemaBuilder::build_schema"]
+        f0 = gos[0]
+        sites = P.find_call_sites(f0.id, lambda c: short_path(c.best) == "ZodSchemaBuilder::build_schema")
+        cs = [c for (_, c) in sites]
         if len(cs) != 1:
-            r3.bad(V(r3.id, f.id, "build_schema-calls:%d" % len(cs), "expected one build_schema call"))
-        for c in cs:
+            r3.bad(V(r3.id, f0.id, "build_schema-calls:%d" % len(cs), "expected one build_schema call"))
+        for (f, c) in sites:
             a = f.describe_origin(f.origin(c.args[1]), deep=3)
             b = f.describe_origin(f.origin(c.args[2]), deep=3)
             ba = re.sub(r"\.template_context::FieldContext\.\w+.*$", "", a)
